@@ -208,6 +208,10 @@ class Sym:
             name = o.get("def") or o.get("tyconst")
             if o.get("fn"):
                 return ("const", None, "fn " + o["fn"], o["ty"])
+            if o.get("pv") is not None:
+                # a reference to a scalar constant: `&64` - strip() looks through the reference and finds the value
+                inner_ty = (o.get("ty") or "").lstrip("&").strip()
+                return ("ref", ("const", int(o["pv"]), None, inner_ty))
             if o.get("promoted"):
                 name = "promoted:" + (o.get("def") or "")
             if v is None and name is None:
